@@ -7,7 +7,7 @@ from ..mon_grid import mon_timegrid, model_values_to_grid
 from ..spec import local_ok
 
 PROPERTY = 'C19'
-CASES = {'quick': 720, 'thorough': 20000}
+CASES = {'quick': 1440, 'thorough': 20000}
 BUDGET_S = {'quick': 120, 'thorough': 1500}
 SUITE_UNDER_MONITORS = True      # thorough tier: the repository's own tests are an extra workload under the passive monitors
 RULE = ('case = one random grid (start around DST switches / month ends, freq in 15min..d plus W/MS, unit h/d/min, 5 zones) '
@@ -19,8 +19,8 @@ ASSUMPTIONS = ['naive local times that do not exist or are ambiguous in the grid
                'for an implicit end of the last interval only the documented generous extension (2x the last gap) is claimed',
                'overlap of two intervals without a common grid point: no claim', 'implicit ends (end = next start) are only generated with sorted starts',
                'grid points of anchored frequencies (W, MS) are taken from pandas offsets; plain frequencies from UTC / calendar arithmetic']
-MIN_NONVACUOUS = {'quick': {'grid.dt_unequal_steps': 20, 'restricted.index_subset': 100, 'coarse.partition_without_loss': 40,
-                            'values.match_model': 100, 'values.overlap_rejected': 15, 'prices.passthrough': 100, 'grid.points_match_model': 300},
+MIN_NONVACUOUS = {'quick': {'grid.dt_unequal_steps': 34, 'restricted.index_subset': 170, 'coarse.partition_without_loss': 68,
+                            'values.match_model': 170, 'values.overlap_rejected': 25, 'prices.passthrough': 170, 'grid.points_match_model': 510},
                   'thorough': {'grid.dt_unequal_steps': 400, 'restricted.index_subset': 3000, 'coarse.partition_without_loss': 1000,
                                'values.match_model': 3000, 'values.overlap_rejected': 300, 'prices.passthrough': 3000}}
 COARSER = {'15min': ['h', '2h'], '30min': ['h', '2h', '4h'], 'h': ['2h', '4h', 'd'], '2h': ['4h', 'd'], '4h': ['d', '2d'], 'd': ['2d', 'W']}
@@ -44,8 +44,9 @@ def gen_intervals(rng, g, tz_aware=False):
             return pd.Timestamp(g['end']) + d * (i - T)
         return base + d * i
     starts = [at(i) for i in cuts[:-1]]; ends = [at(i) for i in cuts[1:]]
-    if rng.random() < 0.3:   # off-grid bounds
-        starts = [s + pd.Timedelta(minutes=int(rng.integers(0, 50))) for s in starts]
+    if rng.random() < 0.3:   # off-grid bounds (one common offset: the starts stay sorted, implicit ends are only defined for sorted starts)
+        shift = pd.Timedelta(minutes=int(rng.integers(1, 50)))
+        starts = [s + shift for s in starts]
     vals = [float(np.round(rng.normal(5, 3), 2)) for _ in starts]
     inp = {'start': starts, 'end': ends, 'values': vals}
     if kind == 'gaps' and len(starts) > 1:
